@@ -32,13 +32,16 @@ var fixed = []core.Case{
 	{ID: "fix-pinned-upload", NT: true, Ops: []string{"up x/a 1", "pins", "pin x/a", "unpin x/a", "unpin x/a", "pins"}},
 	{ID: "fix-encrypted-multi", NT: true, Ops: []string{"upenc ex/AB 0", "pin ex/AB", "pins", "unpin ex/AB", "pins"}},
 	{ID: "fix-encrypted-single", NT: true, Ops: []string{"upenc ex/a 0", "pin ex/a", "haspin ex/a", "unpin ex/a"}},
+	// a PARTLY stored reference can be pinned (missing chunks skipped) but not unpinned: the failed unpin is not atomic and a retry
+	// lowers shared counters again, which destroys the pin state of a properly pinned reference
+	{ID: "fix-partial-reference-unpin-retry", NT: true, Ops: []string{"up s/AA 0", "pup m/A+k/Ab 0", "pyr m/A+k/Ab", "pin s/AA", "pin m/A+k/Ab", "unpin m/A+k/Ab", "unpin m/A+k/Ab", "unpin s/AA", "pins"}},
 	{ID: "fix-cached-file", NT: true, Ops: []string{"pup y/ABA 0", "pyr y/ABA", "fetch y/ABA 0 111", "pin y/ABA", "pin y/ABA", "unpin y/ABA", "unpin y/ABA"}},
 }
 
 func (prop) Gen(r *core.Rand, tier string) []core.Case {
-	n := 100
+	n := 80
 	if tier == "thorough" {
-		n = 1200
+		n = 450
 	}
 	cs := append([]core.Case(nil), fixed...)
 	for i := 0; i < n; i++ {
